@@ -4,6 +4,7 @@ ASSUMPTIONS = ['typed/h_dec_*: event count concrete per job (1..5), event kinds 
                'typed/h_json_*: Json = model array (is_array symbolic, size ANY uint64, elements integer or not by a symbolic mask) whose element accesses are recorded and bound-checked',
                'typed: integer narrowing by static_cast in basic_staj_event::get<T> is the documented behaviour of both routes and is not asserted against']
 STUB_NOTES = ['model basic_staj_cursor<char> (events in a fixed array; advancing past the last event is recorded)', 'model Json MJA/MJE for the json_traits route']
+TRAP = r'_M_realloc_insert.*basic_json|_M_default_append'
 def jobs(tier):
     J = []
     for n in (1, 2, 3, 4, 5):
@@ -12,6 +13,9 @@ def jobs(tier):
     for h, d in (('h_json_tuple2', 'json_traits<J,tuple<int,int>>::try_as: no out-of-bounds element access, too few elements -> error'), ('h_json_tuple2_is', 'json_traits<J,tuple<int,int>>::is: no out-of-bounds / non-array element access'),
                  ('h_json_array2', 'json_traits<J,std::array<int,2>>::try_as'), ('h_json_pair', 'json_traits<J,std::pair<int,int>>::try_as')):
         J.append(dict(id=h[2:], harness=h, props=['C17', 'C05'], unwind=8, defs={}, timeout=300, desc=d, bound='array-or-not, any size (uint64), any element kinds'))
+    for sq, sn in ((0, 'forward_list'), (2, 'vector')):
+        for ne in ((0, 1, 3, 4) if sq == 0 else (0,)):   # std::vector growth (realloc) does not finish within budget beyond the empty array
+            J.append(dict(id='dec_%s_ne%d' % (sn, ne), harness='h_dec_seq', props=['C17'], unwind=8, defs=dict(SEQ=sq, NE=ne), timeout=300, mem_gb=4, desc='decode_traits<std::%s<uint16_t>>: elements in order, each exact' % sn, bound='arrays of %d scalar elements (uint64/int64/bool, any payload)' % ne))
     for sz in (0, 1, 2, 3):
         J.append(dict(id='route_array2_sz%d' % sz, harness='h_route_array2', props=['C17'], unwind=8, defs=dict(SZ=sz), timeout=300, desc='std::array<int,2>: streaming route and basic_json route agree (accept/reject, value)', bound='arrays of %d elements, each an int32 or null' % sz))
     return J
